@@ -40,7 +40,7 @@ ASSUMPTIONS = [
 ]
 
 KEYS = ['a', 'b', 'dir/x', 'dir/y', 'deep/er/z', 'user:1', 'user_1']     # distinct keys stay distinct files
-VALS = [I(7), S('v'), L(I(1), I(2), I(3)), D([(I(1), S('one'))]), S('x' * 300), L(*[R(i + 0.5) for i in range(40)]),
+VALS = [I(7), I(8), S('v'), S('w'), L(I(1), I(2), I(3)), D([(I(1), S('one'))]), S('x' * 300), L(*[R(i + 0.5) for i in range(40)]),
         S('big' * 3000), S('huge' * 5000), S('k' * 70000), S('m' * 150000), S('q' * 300000)]
 
 
@@ -74,14 +74,22 @@ class Tracer:
         class TracingFileIO(io.FileIO):
             def __init__(self, path, mode):
                 self._rel = tracer.rel(path)
-                tracer.emit('open_trunc', self._rel)
+                self._append = 'a' in mode
+                # 'w' truncates, 'x' creates; 'r+' / 'a' keep what is there
+                tracer.emit('open_trunc' if ('w' in mode or 'x' in mode) else 'open_keep', self._rel)
                 super().__init__(path, mode)
                 tracer.fds[self.fileno()] = self._rel
 
             def write(self, b):
+                off = None if self._append else self.tell()
                 n = super().write(b)
-                tracer.emit('write', self._rel, bytes(b[:n]))
+                tracer.emit('write', self._rel, bytes(b[:n]), off)
                 return n
+
+            def truncate(self, size=None):
+                r = super().truncate(size)
+                tracer.emit('truncate', self._rel, r)
+                return r
 
             def close(self):
                 if not self.closed:
@@ -90,8 +98,13 @@ class Tracer:
                     tracer.emit('close', self._rel)
 
         def open_(file, mode='r', *a, **kw):
-            if mode == 'wb':
-                return io.BufferedWriter(TracingFileIO(file, 'wb'))
+            # every binary mode that can write goes through the tracing raw file, under the same buffered layer
+            # builtins.open would put on top of it
+            if 'b' in mode and any(c in mode for c in 'wax+'):
+                raw = TracingFileIO(file, mode.replace('b', ''))
+                if '+' in mode:
+                    return io.BufferedRandom(raw)
+                return io.BufferedWriter(raw)
             return builtins.open(file, mode, *a, **kw)
         return open_
 
@@ -119,6 +132,20 @@ class Tracer:
             def fsync(self, fd):
                 os.fsync(fd)
                 tracer.emit('fsync', tracer.fds.get(fd, '?'))
+
+            def fdatasync(self, fd):
+                os.fdatasync(fd)
+                tracer.emit('fsync', tracer.fds.get(fd, '?'))
+
+            def _rename(self, fn, src, dst, *a, **kw):
+                fn(src, dst, *a, **kw)
+                tracer.emit('rename', tracer.rel(src), tracer.rel(dst))
+
+            def replace(self, src, dst, *a, **kw):
+                self._rename(os.replace, src, dst, *a, **kw)
+
+            def rename(self, src, dst, *a, **kw):
+                self._rename(os.rename, src, dst, *a, **kw)
         return OsProxy()
 
 
@@ -170,9 +197,28 @@ def record(seq):
 LOSS = ['none', 'all', 'trunc-only', 'prefix:1', 'prefix:half', 'prefix:n-1']
 
 
+def _apply(base, writes, limit=None):
+    """base bytes with the (offset, data) writes applied in order; at most `limit` bytes of write data in total"""
+    buf = bytearray(base)
+    left = limit
+    for off, data in writes:
+        if left is not None:
+            if left <= 0:
+                break
+            data = data[:left]
+            left -= len(data)
+        if off is None:
+            off = len(buf)
+        if off > len(buf):
+            buf.extend(b'\0' * (off - len(buf)))
+        buf[off:off + len(data)] = data
+    return bytes(buf)
+
+
 def image(events, p, loss):
     """File contents (relpath -> bytes) on disk after a crash at prefix p under the loss choice; None if the
-    choice does not apply (no unsynced data)."""
+    choice does not apply (no unsynced data).  Writes are positional (a file opened without truncation is
+    overwritten in place); a rename moves the file with whatever of it was durable."""
     durable, cur, trunc_unsynced, unsynced = {}, {}, {}, {}
     for ev in events[:p]:
         t = ev[0]
@@ -180,17 +226,35 @@ def image(events, p, loss):
             f = ev[1]
             cur[f] = b''
             trunc_unsynced[f] = True
-            unsynced[f] = b''
+            unsynced[f] = []
+        elif t == 'open_keep':
+            f = ev[1]
+            cur.setdefault(f, durable.get(f, b''))
+            unsynced.setdefault(f, [])
         elif t == 'write':
             f = ev[1]
-            cur[f] = cur.get(f, b'') + ev[2]
-            unsynced[f] = unsynced.get(f, b'') + ev[2]
+            off = ev[3] if len(ev) > 3 else None
+            cur[f] = _apply(cur.get(f, b''), [(off, ev[2])])
+            unsynced.setdefault(f, []).append((off, ev[2]))
+        elif t == 'truncate':
+            f = ev[1]
+            cur[f] = cur.get(f, b'')[:ev[2]]
+            if ev[2] == 0:
+                trunc_unsynced[f] = True
+                unsynced[f] = []
         elif t == 'fsync':
             f = ev[1]
             if f in cur:
                 durable[f] = cur[f]
                 trunc_unsynced[f] = False
-                unsynced[f] = b''
+                unsynced[f] = []
+        elif t == 'rename':
+            src, dst = ev[1], ev[2]
+            for m in (cur, durable, trunc_unsynced, unsynced):
+                if src in m:
+                    m[dst] = m.pop(src)
+                elif m is not durable:
+                    m.pop(dst, None)
     dirty = [f for f in cur if cur[f] != durable.get(f)]
     if not dirty and loss != 'none':
         return None
@@ -208,13 +272,13 @@ def image(events, p, loss):
                 return None
             out[f] = b''
         else:
-            data = unsynced.get(f, b'')
-            n = len(data)
+            writes = unsynced.get(f, [])
+            n = sum(len(d) for _, d in writes)
             k = {'prefix:1': 1, 'prefix:half': n // 2, 'prefix:n-1': n - 1}[loss]
             if n < 2 or k <= 0 or k >= n:
                 return None
             base = b'' if trunc_unsynced.get(f) else durable.get(f, b'')
-            out[f] = base + data[:k]
+            out[f] = _apply(base, writes, k)
     return out
 
 
@@ -409,7 +473,7 @@ def kill_shard(seed_value, nseq):
     f = core.Findings("C17")
 
     def make_test(report):
-        @given(st.lists(st.tuples(st.sampled_from(KEYS), st.sampled_from(VALS[:6])), min_size=2, max_size=4))
+        @given(st.lists(st.tuples(st.sampled_from(KEYS), st.sampled_from(VALS[:8])), min_size=2, max_size=4))
         def t(seq):
             seq = [tuple(x) for x in seq]
             n_events = len(record(seq))
